@@ -200,6 +200,18 @@ def _snapshot(tbl, p, stage, op, name, extra=None):
     return out
 
 
+# attribute names a Parameter may be given; the model is name-blind, so any name-dependent behaviour of the
+# code shows as a mismatch.  The second group are the names of Parameter slots (`_non_validated_slots` first).
+PLAIN_NAMES = ['p0', 'p1']
+SLOT_LIKE_NAMES = ['precedence', 'doc', 'constant', 'owner', 'watchers', '_label', 'pickle_default_value',
+                   'readonly', 'default', 'bounds', 'allow_None', 'instantiate', 'per_instance', 'objects', 'label']
+
+
+def _pn(case, n):
+    pn = case.get('pnames')
+    return pn[n] if pn else f'p{n}'
+
+
 def _kind(e):
     n = type(e).__name__
     return n if n in ('ValueError', 'TypeError', 'KeyError') else f'other:{n}'
@@ -245,7 +257,7 @@ def run_impl(case):
                     st['raws'].append(_snapshot(tbl, p, 0, k, d['name']))
                 if st['outcome'] != 'ok':
                     continue
-                body = {f'p{n}': p for n, p in ps}
+                body = {_pn(case, n): p for n, p in ps}
                 if len(body) != len(ps):
                     raise RuntimeError('duplicate parameter name in one class body')
                 try:
@@ -261,7 +273,7 @@ def run_impl(case):
                 rev = {v: i for i, v in classes.items()}
                 st['mro'] = [rev[c] for c in cls.__mro__ if c in rev]
                 for n, p in ps:
-                    if cls.__dict__.get(f'p{n}') is not p:
+                    if cls.__dict__.get(_pn(case, n)) is not p:
                         raise RuntimeError('declared Parameter is not the one in the class __dict__')
                 st['held'] = [_snapshot(tbl, p, 1, k, n) for n, p in ps]
             else:
@@ -277,10 +289,10 @@ def run_impl(case):
                     continue
                 st['raws'].append(_snapshot(tbl, p, 0, k, d['name']))
                 try:
-                    cls.param.add_parameter(f'p{d["name"]}', p)
+                    cls.param.add_parameter(_pn(case, d['name']), p)
                 except Exception as e:
                     st['outcome'] = f'merge:0:{_merge_kind(e)}'
-                st['installed'] = cls.__dict__.get(f'p{d["name"]}') is p
+                st['installed'] = cls.__dict__.get(_pn(case, d['name'])) is p
                 st['held'] = [_snapshot(tbl, p, 1, k, d['name'])]
         final = []
         rev = {v: i for i, v in classes.items()}
@@ -288,8 +300,8 @@ def run_impl(case):
             cls = classes[idx]
             row = []
             for n in range(case['names']):
-                if f'p{n}' in cls.param:
-                    p = cls.param[f'p{n}']
+                if _pn(case, n) in cls.param:
+                    p = cls.param[_pn(case, n)]
                     row.append(_snapshot(tbl, p, 2, len(case['ops']), n, {'owner': rev.get(p.owner, -1)}))
                 else:
                     row.append(None)
@@ -359,8 +371,8 @@ def _rx_table(case_ops):
     return [[r, s, re.match(r, s) is not None] for r in sorted(regexes) for s in sorted(strings)]
 
 
-def _mk(ops, names):
-    """finish a case: MROs from the mirror hierarchy, regex oracle table"""
+def _mk(ops, names, pnames=None):
+    """finish a case: MROs from the mirror hierarchy, regex oracle table; `pnames` = attribute names (default p0, p1)"""
     mros = _mirror_mros([(op['cls'], op['bases']) for op in ops if op['op'] == 'declare'])
     out = []
     for op in ops:
@@ -369,7 +381,10 @@ def _mk(ops, names):
                 continue
             op = dict(op, mro=mros[op['cls']])
         out.append(op)
-    return {'names': names, 'rx': _rx_table(out), 'ops': out}
+    case = {'names': names, 'rx': _rx_table(out), 'ops': out}
+    if pnames:
+        case['pnames'] = list(pnames)[:names]
+    return case
 
 
 def D(ids, name, ptype, instantiate=None, **kw):
@@ -391,9 +406,9 @@ def A(cls, decl):
 def _directed():
     out = []
 
-    def case(f, names=1):
+    def case(f, names=1, pnames=None):
         ids = _Ids()
-        out.append(_mk(f(ids), names))
+        out.append(_mk(f(ids), names, pnames))
     N, I, P, S, T, L, Sel = 'Number', 'Integer', 'Parameter', 'String', 'Tuple', 'List', 'Selector'
     # p14: diamond D(B, C) over A
     case(lambda i: [C(0, [], D(i, 0, N, default=5, bounds=(0, 10), doc='A doc', step=1)),
@@ -469,6 +484,15 @@ def _directed():
     # multiple roots joined
     case(lambda i: [C(0, [], D(i, 0, I)), C(1, [], D(i, 0, N)), C(2, [0, 1], D(i, 0, I)), C(3, [1, 0], D(i, 0, N)),
                     C(4, [0, 1], D(i, 0, N)), C(5, [0, 1])])
+    # a Parameter named like a Parameter slot merges like any other (the name must not be mistaken for a slot name)
+    for nm in SLOT_LIKE_NAMES[:8]:
+        case(lambda i: [C(0, [], D(i, 0, N, default=5, bounds=(0, 10))), C(1, [0], D(i, 0, N, default=20)),
+                        C(2, [0], D(i, 0, N, default=7, doc='d')), C(3, [0]), A(3, D(i, 0, N, bounds=(6, 8)))], pnames=[nm])
+    case(lambda i: [C(0, [], D(i, 0, S, default='ab', regex='^a')), C(1, [0], D(i, 0, S, default='zz'))], pnames=['doc'])
+    # a failing add_parameter on a class that OWNS the Parameter must put the class's own Parameter back
+    case(lambda i: [C(0, [], D(i, 0, N, default=5, bounds=(0, 10))), C(1, [0], D(i, 0, N, default=6)),
+                    A(1, D(i, 0, N, default=50)), C(2, [1], D(i, 0, N, doc='d')), A(1, D(i, 0, S)),
+                    C(3, [1], D(i, 0, N, default=7)), A(1, D(i, 0, N, default=8)), C(4, [1], D(i, 0, N))])
     # KNOWN FINDING: names of a dict-declared Selector are not inherited
     case(lambda i: [C(0, [], D(i, 0, Sel, objects={'a': 1, 'b': 2})), C(1, [0], D(i, 0, Sel, default=2))])
     return out
@@ -641,11 +665,12 @@ def _random_case(rng):
             ops.append(A(c, d))
     for c, d in pending_adds:
         ops.append(A(c, d))
-    if rng.random() < 0.1:
+    if rng.random() < 0.2:
         nm = rng.randrange(names)
         types, pool = fam[nm]
         ops.append(A(rng.randrange(n), _rand_decl(rng, ids, nm, rng.choice(types), pool, first=False)))
-    return _mk(ops, names)
+    pnames = rng.sample(SLOT_LIKE_NAMES, names) if rng.random() < 0.15 else None
+    return _mk(ops, names, pnames)
 
 
 def cases(rng, tier, worker, nworkers):
@@ -750,30 +775,32 @@ def nontrivial(case, impl, resp):
 
 def shrink(case):
     ops, names = case['ops'], case['names']
+    def mk(o, n):
+        return _mk(o, n, case.get('pnames'))
 
     def strip(op):
         return {k: v for k, v in op.items() if k != 'mro'}
     base = [strip(o) for o in ops]
     for i in reversed(range(len(base))):
-        yield _mk(base[:i] + base[i + 1:], names)
+        yield mk(base[:i] + base[i + 1:], names)
     for i, op in enumerate(base):
         decls = op['decls'] if op['op'] == 'declare' else None
         if decls:
             for k in range(len(decls)):
-                yield _mk(base[:i] + [dict(op, decls=decls[:k] + decls[k + 1:])] + base[i + 1:], names)
+                yield mk(base[:i] + [dict(op, decls=decls[:k] + decls[k + 1:])] + base[i + 1:], names)
         for k, d in enumerate(decls if decls is not None else [op['decl']]):
             for a in list(d['args']):
                 nd = dict(d, args={x: y for x, y in d['args'].items() if x != a})
                 if decls is not None:
-                    yield _mk(base[:i] + [dict(op, decls=decls[:k] + [nd] + decls[k + 1:])] + base[i + 1:], names)
+                    yield mk(base[:i] + [dict(op, decls=decls[:k] + [nd] + decls[k + 1:])] + base[i + 1:], names)
                 else:
-                    yield _mk(base[:i] + [dict(op, decl=nd)] + base[i + 1:], names)
+                    yield mk(base[:i] + [dict(op, decl=nd)] + base[i + 1:], names)
             if d.get('instantiate') is not None:
                 nd = dict(d, instantiate=None)
                 if decls is not None:
-                    yield _mk(base[:i] + [dict(op, decls=decls[:k] + [nd] + decls[k + 1:])] + base[i + 1:], names)
+                    yield mk(base[:i] + [dict(op, decls=decls[:k] + [nd] + decls[k + 1:])] + base[i + 1:], names)
                 else:
-                    yield _mk(base[:i] + [dict(op, decl=nd)] + base[i + 1:], names)
+                    yield mk(base[:i] + [dict(op, decl=nd)] + base[i + 1:], names)
 
 
 def classify(case, impl, fail):
